@@ -1556,9 +1556,13 @@ class StateEngine(object):
             cause the execution to fail. Similarly, with a Task.Terminated
             error we want terminated Tasks to end immediately.
             A retry or catch on States.ALL will not catch these errors.
+            Nor can an execution that has exceeded the execution history
+            quota be kept going by a Retrier or Catcher: it would carry on
+            (and its history grow) without bound.
             """
             unrecoverable = (error_type == "States.Runtime" or
                              error_type == "States.ExecutionTimeout" or
+                             error_type == "States.ExecutionHistoryLimitExceeded" or
                              error_type == "Task.Terminated")
 
             retry = state.get("Retry")
